@@ -124,9 +124,9 @@ CHECKS["C14"] = dict(
     technique="property-based concurrency testing (rapid): goroutines behind a barrier present generated multisets to the Deduplicator, key classes from an independent reference hash; timed retention sequences; hasher laws as a differential",
     level_text="Generated multisets of messages with payload sizes around the read-limit boundary are presented by up to 32 goroutines at once (several rounds per case, GOMAXPROCS varied) to the middleware and to the publisher decorator; per key class (computed with an independent reference hash) exactly one presentation may pass and all others must be dropped as acked successes. Timed sequences check the lower bound of the retention window and re-acceptance after expiry; the hashers are compared with hash(payload[:min(len,limit)]).",
     level_note="Trusted: the reference hash in c14_test.go, wall-clock used conservatively (retention only asserted for re-presentations that ended inside the window). Interleavings are sampled; the race detector is on.",
-    steps=[dict(name="concurrent", run="^TestConcurrentPresentations$", quick=1000, thorough=320000, shards_thorough=10),
+    steps=[dict(name="concurrent", run="^TestConcurrentPresentations$", quick=1000, thorough=320000, shards_thorough=40),
            dict(name="laws", run="^TestHasherLaws$", quick=3000, thorough=1000000, shards_thorough=2),
-           dict(name="retention", run="^TestRetentionWindow$", quick=60, thorough=3200, shards_thorough=4)],
+           dict(name="retention", run="^TestRetentionWindow$", quick=60, thorough=3200, shards_thorough=8)],
 )
 
 _GC_NOTE = "Trusted: the history recorder and invariants in harness/gcprog (one atomic logical clock; 'about to settle' stamped before Ack/Nack). Interleavings are sampled (noise, forced parks at hook points, GOMAXPROCS), not enumerated; absence ('nothing else receivable') is observed over hold windows and can only miss violations. A known finding (C05-F1) is excluded by construction."
